@@ -12,7 +12,7 @@ LEAN_TB = [
 STORAGE_ASSUME = [
     "the Ledger / BaseStorage behaves as a map on NON-EMPTY registers and a failing call has no effect (caller-supplied component); LedgerBaseStorage reads a zero-length register as absent (modelled, SlabIdB.lbs_step_refines) and the real codec never writes one (SlabIdB.real_codec_register_nonempty)",
     "EncodeSlab/DecodeSlab round-trip (RoundTrip hypothesis; discharged for the real codec by C07's tie)",
-    "value-level model: pointer aliasing between deltas, cache and container handles is not modelled",
+    "value-level model: pointer aliasing between deltas, cache and container handles is not modelled. Consequence (measured by the aliasdrop stream on every run): a container operation mutates IN PLACE the slab object that the read cache also holds, so RetrieveIgnoringDeltas of a committed slab that was mutated since returns the UNCOMMITTED content, and after DropDeltas ALONE the view is not the last commit (mutated cached slabs stay, slabs created since are gone: fresh handles see uncommitted content, dangling references or cannot open the root; Deltas()=0, a commit writes nothing). The model answers 'committed content' in both cases; its streams never mutate a stored slab object. The property's claim (write set AND cache dropped) holds on the code and is checked",
     "goroutine scheduling of the encoder/decoder pools is abstracted to arrival order (see C16)",
 ]
 
@@ -132,10 +132,10 @@ PROPS = {
         "explanation": "Theorems: fastcommit_order_sorted (ascending (owner,index) call order for every write set and fault plan), lt_strict_total, fastcommit_schedule_invariant (any worker count, any finishing schedule = sequential), nondet_commit_same_final_ledger (same ledger, call multiset equal), source_premises (worker closures write-free, pools reset before Put; regenerated); byte level (SlabIdB.*): SlabID.Compare = the numeric (owner,index) order the model sorts by, the comparator of sortedOwnedDeltaKeys is that same order, the byte-level sorted key list maps exactly onto the model's. Oracle: byte-identical registers, identical observations and ordered call logs across all configurations and a fresh process.",
     },
     "C08": {
-        "streams": ["cache", "compact", "storage"], "driver": {"storage": "storage"}, "level": "proof",
+        "streams": ["cache", "compact", "storage", "aliasdrop"], "driver": {"storage": "storage"}, "level": "proof",
         "trusted_base": LEAN_TB, "assumptions": STORAGE_ASSUME + [
             "value-level model: clients re-fetch their handles after a cache drop / reopen (HandlesCurrent); stale-handle histories are outside the theorem (see DESIGN.md, finding F2)"],
-        "rule": "scripts of 250 array+map operations under maintenance schedules {never, commit after every op, commit+drop cache after every op, commit+reopen after every op, random, periodic}; plus same-typed inlined composite maps (compact encoding) under commit+drop-cache / commit+reopen every 1,2,5,8 operations with re-fetched handles; distinct = distinct final ledgers",
+        "rule": "scripts of 250 array+map operations under maintenance schedules {never, commit after every op, commit+drop cache after every op, commit+reopen after every op, random, periodic}; plus same-typed inlined composite maps (compact encoding) under commit+drop-cache / commit+reopen every 1,2,5,8 operations with re-fetched handles; half of the cache programs hash keys non-injectively (collisions on every digest level, pooled digesters beyond level 0), half of them write the hash input into the scratch buffer supplied by the library; aliasdrop: real arrays and maps mutated IN PLACE through their handles after a commit (the cache holds the same slab objects), then write set and cache dropped in either order: every container read through a fresh handle and through a brand-new storage equals the last commit; distinct = distinct final ledgers",
         "explanation": "Theorems: reload_is_identity, schedule_independent_outcomes, schedule_independent_ledger (any two schedules of {commit (both kinds), drop cache, commit+reopen} give the same observations, view and final ledger). Oracle: observations, final content, VerifyArray/VerifyMap and final registers equal across schedules on the real code.",
     },
     "C16": {
@@ -173,9 +173,9 @@ PROPS = {
         "explanation": "Theorems: health_sound / health_complete (check accepts exactly the Healthy heaps and returns the true roots), four corruption theorems, allrefs_exact. Tie: every heap dumped from the real storage is checked by the model and the outcome compared with CheckStorageHealth / GetAllChildReferences. Oracle: an independent graph walker in Go.",
     },
     "C15": {
-        "streams": ["storage", "storageexh", "slabid"], "driver": {"storage": "storage", "storageexh": "storage", "slabid": "slabid"}, "level": "proof",
+        "streams": ["storage", "storageexh", "slabid", "aliasdrop"], "driver": {"storage": "storage", "storageexh": "storage", "slabid": "slabid"}, "level": "proof",
         "trusted_base": LEAN_TB, "assumptions": STORAGE_ASSUME,
-        "rule": "random op sequences (store/remove/retrieve/retrieve-if-loaded/cache-bypassing retrieve/both commits with fault plans/drop deltas/drop cache/preload/re-create/external corruption) over 4-15 identifiers incl. a temporary-address one; PLUS bounded-exhaustive: every sequence of length 4 (thorough: 5) over a 22-operation alphabet on two identifiers (one owned, one temporary), two versions, both commits with and without a fault; slabid: LedgerBaseStorage over a map ledger (keeping / deleting empty registers, injected faults), InMemBaseStorage and BasicSlabStorage incl. its iterator, 120 programs of requests compared with their byte-level models; distinct = distinct op-kind strings / sequences",
+        "rule": "random op sequences (store/remove/retrieve/retrieve-if-loaded/cache-bypassing retrieve/both commits with fault plans/drop deltas/drop cache/preload/re-create/external corruption) over 4-15 identifiers incl. a temporary-address one; PLUS bounded-exhaustive: every sequence of length 4 (thorough: 5) over a 22-operation alphabet on two identifiers (one owned, one temporary), two versions, both commits with and without a fault; slabid: LedgerBaseStorage over a map ledger (keeping / deleting empty registers, injected faults), InMemBaseStorage and BasicSlabStorage incl. its iterator, 120 programs of requests compared with their byte-level models; storage stream also: reads, identifier allocations and preloads whose LEDGER CALL FAILS (external error, no trace in write set / cache / counters / ledger, compared with the replayer's no-op); aliasdrop (container level, model-free): arrays and maps mutated in place through handles after a commit, then DropDeltas+DropCache in either order => every container read back through a fresh handle equals the last commit, containers born after it are gone, ledger untouched; what DropDeltas ALONE and RetrieveIgnoringDeltas show in that situation is recorded as observation counters (the cache holds the mutated objects: see assumptions); distinct = distinct op-kind strings / sequences",
         "explanation": "Theorems: storage state machine refines the write-back overlay spec for every op sequence (inv_reachable, step_refines, ...). Tie: model replayed against PersistentSlabStorage on every trace line (observations, ledger call logs, where each id is served from, counters). Oracle: Go-map overlay.",
     },
     "C13": {
@@ -190,7 +190,7 @@ PROPS = {
     "C14": {
         "streams": ["storage"], "driver": {"storage": "storage"}, "level": "proof",
         "trusted_base": LEAN_TB, "assumptions": STORAGE_ASSUME,
-        "rule": "same stream as C15; every commit draws a fault plan (up to 2 failing positions among the first 6 ledger calls), a commit kind and a worker count in {1,2,3,8,64}",
+        "rule": "same stream as C15; every commit draws, with a probability that grows with the size of the owned write set (5%..65%), a fault plan of up to 2 failing positions among 0..pendingOwned-1 (the ledger calls the commit can issue; every third program lets its write set grow before committing), a commit kind and a worker count in {1,2,3,8,64}; evidence counters commit-faults:planned / fired / fired-after-successful-calls / by write-set size",
         "explanation": "Theorems: failed_commit_reports_error / keeps_view / pending_is_unwritten / retry_converges for both commits, all fault plans, all orders. Tie: as C15. Oracle: ledger call log vs pending set, Deltas() after failure, error category External.",
     },
 }
